@@ -1161,7 +1161,7 @@ static void add_ref_seeds(void) {
 static const char *QUICK_SEEDS[] = {
 	"ref:sig.tail3.rfc0", "ref:sig.tail2.rfc1", "ref:aggr-resp.v2", "ref:aggr-resp.v1", "ref:ext-resp.v2", "ref:ext-resp.v1", "ref:aggr-error.v2",
 	"ref:ext-conf.v2", "ref:sig.zero-length-input-hash", "ok-sig-metadata-with-padding.ksig", "rfc3161-sha1-as-input-hash-2017.ksig", "ok_nested-9.tlv",
-	"publications-one-cert-one-publication-record-with-wrong-hash.tlv", "ref:pubfile.large-unknown-record", "ref:ext-req-wide-integers.v2", NULL
+	"publications-one-cert-one-publication-record-with-wrong-hash.tlv", "ref:pubfile.large-unknown-record", "ref:pubfile.sha512-publication", "ref:ext-req-wide-integers.v2", NULL
 };
 
 static void load_seeds(void) {
@@ -1189,6 +1189,21 @@ static void load_seeds(void) {
 				vb_put(&o, d + off, n - off);
 				add_seed("ref:pubfile.large-unknown-record", o.p, o.n);
 				vb_free(&o); vb_free(&pad);
+				{
+					/* the same file with a further publication record whose imprint is a SHA2-512 one (the longest rendering of a record) */
+					vbuf o2, pd, rec;
+					unsigned char imp[65];
+					vb_init(&o2); vb_init(&pd); vb_init(&rec);
+					imp[0] = 0x05; for (j = 1; j < 65; j++) imp[j] = (unsigned char)(j * 3);
+					rtlv_put_u64(&pd, 0x02, 1500000000ULL);
+					rtlv_put(&pd, 0x04, 0, 0, imp, 65, 0);
+					rtlv_put(&rec, 0x10, 0, 0, pd.p, pd.n, 0);
+					vb_put(&o2, d, off);
+					rtlv_put(&o2, 0x703, 0, 0, rec.p, rec.n, 0);
+					vb_put(&o2, d + off, n - off);
+					add_seed("ref:pubfile.sha512-publication", o2.p, o2.n);
+					vb_free(&o2); vb_free(&pd); vb_free(&rec);
+				}
 			}
 		}
 	}
